@@ -190,7 +190,8 @@ def _block_containing(fnode, stmt):
 def c10_updates_unfiltered(run, w, rule_id="C10-R2"):
   """The back-reference clean-up applies every update the referring column reports."""
   run.rule(rule_id, "")
-  fn = w.fn("useractions.UserActions.doBulkRemoveRecord")
+  from . import _h_B as H
+  fn = H.inlined_fn(w, "useractions.UserActions.doBulkRemoveRecord")
   calls = [(n, c) for (n, c, nm) in fn.calls()
            if nm and nm.endswith(".get_updates_for_removed_target_rows")]
   if len(calls) != 1:
